@@ -56,7 +56,9 @@ def build_batches(scratch, versions, tier, rng_tag, n_stdlib, n_gen, batch=25, f
             sp = os.path.join(wd, "m%03d_%s.py" % (j, tname))
             with open(sp, "w", encoding="utf-8", errors="surrogatepass") as f:
                 f.write(src_text)
-            items.append({"src": sp, "pyc": sp + "c", "filename": "must_%s.py" % tname, "tags": tags})
+            # every other must-have program gets a non-ASCII file name (co_filename is text in 3.x, UTF-8 bytes in 2.x)
+            fname = ("must_%s.py" if j % 2 else "m\u00fcst_\u4e2d_%s.py") % tname
+            items.append({"src": sp, "pyc": sp + "c", "filename": fname, "tags": tags})
         rng.shuffle(items)
         for bi, chunk in enumerate(K.chunks(items, batch)):
             batches.append({"v": v, "items": chunk, "mode": "compile", "workdir": wd, "tag": "b%d" % bi})
